@@ -230,7 +230,13 @@ static void absorb_extra_loads(World &w, const std::string &expected) {
     }
 }
 
-static void run(const Scenario &sc, Reporter &rep) {
+struct Explore {
+    FILE *out;
+    std::uint64_t rng;
+    std::uint64_t next() { rng ^= rng << 13; rng ^= rng >> 7; rng ^= rng << 17; return rng; }
+};
+
+static void run_one(const Scenario &sc, Reporter &rep, Explore *ex) {
     World *pw = new World();   // leaked on deadlock (stuck threads reference it)
     World &w = *pw;
     for (auto &kv : sc.hdr.at("P").m) {
@@ -241,6 +247,9 @@ static void run(const Scenario &sc, Reporter &rep) {
         w.rel[kv.first] = sc.hdr.at("rel").at(kv.first).as_str("dtor");
     }
     w.sched.yield_after = true;
+    // exploration: the specification has no pure loads, so loads are not scheduling points there (a behaviour-preserving
+    // extra load must not change the recorded step structure)
+    if (ex) w.sched.no_yield = [](const cocls_verif::event &e) { return e.op == op_t::load || e.op == op_t::conv; };
     if (w.sched.record_motable) cocls_verif::motable::get().label(&(w.mx.*MProbe::req_mp()), sizeof(void *), "mutex.requests");
     w.multi = sc.hdr.has("rounds");
     if (w.multi) {
@@ -331,7 +340,28 @@ static void run(const Scenario &sc, Reporter &rep) {
     }
     bool bad = false;
     learn_nodes(w);
-    for (std::size_t k = 0; k < sc.steps.size() && !bad; k++) {
+    if (ex) {
+        // code -> spec: a random schedule; every step is logged with the projection after it (MutexRoundsTrace.tla)
+        for (;;) {
+            std::vector<std::string> en;
+            for (auto &kv : w.tid) {
+                int t = kv.second;
+                if (!w.sched.enabled(t)) continue;
+                // a helper parked at its marker can only go on once the ownership object has been handed to it
+                if (!w.sched.pending_after(t) && w.sched.pending(t).op == op_t::mark && std::string(w.sched.pending(t).tag) == "hrel"
+                    && !w.slotfull[kv.first.substr(1)]) continue;
+                en.push_back(kv.first);
+            }
+            if (en.empty()) break;
+            const std::string &n = en[ex->next() % en.size()];
+            w.sched.step(w.tid[n]);
+            learn_nodes(w);
+            fprintf(ex->out, "{\"a\":\"Step\",\"t\":\"%s\",\"p\":%s}\n", n.c_str(), project(w).dump().c_str());
+        }
+        if (!w.sched.all_done()) fprintf(ex->out, "{\"a\":\"Deadlock\",\"t\":\"none\",\"p\":%s}\n", project(w).dump().c_str());
+        fprintf(ex->out, "{\"a\":\"Reset\",\"t\":\"none\",\"p\":{}}\n");
+    }
+    for (std::size_t k = 0; !ex && k < sc.steps.size() && !bad; k++) {
         const Step &st = sc.steps[k];
         auto it = w.tid.find(st.sarg(0));
         if (it == w.tid.end()) { rep.error(k, "unknown thread"); bad = true; break; }
@@ -354,7 +384,7 @@ static void run(const Scenario &sc, Reporter &rep) {
     }
     bool drained = w.sched.drain();
     if (!drained && !bad) rep.diverge(sc.steps.size() - 1, "deadlock: threads blocked at the end of the schedule got=" + project(w).dump());
-    if (drained && !bad) {
+    if (drained && !bad && !ex) {
         for (auto &kv : w.kind) {
             if (w.multi) {
                 if (kv.second != "try" && (w.acts[kv.first] != w.rounds[kv.first] || w.bodies[kv.first] != w.rounds[kv.first])) {
@@ -373,6 +403,16 @@ static void run(const Scenario &sc, Reporter &rep) {
     }
     w.sched.join_all();
     delete pw;
+}
+
+static void run(const Scenario &sc, Reporter &rep) {
+    if (!sc.hdr.has("explore")) { run_one(sc, rep, nullptr); return; }
+    const JV &e = sc.hdr.at("explore");
+    FILE *f = fopen(e.at("out").as_str().c_str(), "w");
+    if (!f) { rep.error(0, "cannot open trace output"); return; }
+    Explore ex{f, (std::uint64_t) e.at("seed").as_int(1) * 2654435761ULL + 88172645463325252ULL};
+    for (long i = 0; i < e.at("runs").as_int(1); i++) run_one(sc, rep, &ex);
+    fclose(f);
 }
 
 int main() {
